@@ -236,30 +236,154 @@ def run_e2e(case):
 _ERR_CTX = None
 
 
+HEAD_KINDS = ["none", "100", "102", "103", "101", "200", "404", "200+body"]
+
+
+def relayed_status(head):
+    return 0 if head == "none" else int(head.split("+")[0])
+
+
 def run_err(case):
-    """the real Http1Server.send(ResponseProtocolError(code, message)) with the client connection writable or not and a
-    response already started or not: what is written to the client, and whether the connection is closed"""
+    """the real Http1Server: a request arrives (still incomplete), then — depending on case["head"] — a response head is
+    relayed to the client through send(ResponseHeaders) (mitmproxy's own 100 Continue, an interim 102/103, a 101, a final
+    head, a final head plus part of its body), then send(ResponseProtocolError(code, message)).
+    Observed: the bytes relayed before the error, the bytes the error path wrote, whether it closed."""
     global _ERR_CTX
     from common.world import make_context
-    from mitmproxy.proxy import commands
+    from mitmproxy import http as mhttp
+    from mitmproxy.proxy import commands, events
     from mitmproxy.connection import ConnectionState
     from mitmproxy.test import taddons
     from mitmproxy.addons import proxyserver
-    from mitmproxy.test.tflow import tresp
     if _ERR_CTX is None:
         cm = taddons.context(proxyserver.Proxyserver()); _ERR_CTX = (cm, cm.__enter__())
     ctx = make_context(opts=_ERR_CTX[1].options)
     lay = _http1.Http1Server(ctx)
-    if case["started"]: lay.response = tresp()
+    sent = []
+
+    def run(gen):
+        out = list(gen)
+        sent.extend(c.data for c in out if isinstance(c, commands.SendData))
+        return out
+    run(lay.handle_event(events.Start()))
+    run(lay.handle_event(events.DataReceived(ctx.client, b"POST /up HTTP/1.1\r\nHost: a.example\r\nConnection: Upgrade\r\n"
+                                                          b"Upgrade: foo\r\nContent-Length: 10\r\n\r\nabc")))
+    head = case["head"]
+    st = relayed_status(head)
+    if st:
+        if st == 101: hdrs = [(b"Connection", b"Upgrade"), (b"Upgrade", b"foo")]
+        elif st >= 200: hdrs = [(b"Content-Length", b"10")]
+        else: hdrs = []
+        resp = mhttp.Response(b"HTTP/1.1", st, status_codes.RESPONSES.get(st, "X").encode(), mhttp.Headers(hdrs), None, None, 1.0, None)
+        run(lay.send(_events.ResponseHeaders(1, resp, False)))
+        if head.endswith("+body"):
+            run(lay.send(_events.ResponseData(1, b"0123")))
+    before = b"".join(sent); sent.clear()
     if not case["canwrite"]: ctx.client.state = ConnectionState.CAN_READ
-    msg = msg_of(case)
-    cmds = list(lay.send(_events.ResponseProtocolError(1, msg, _events.ErrorCode(case["code"]))))
-    sent = b"".join(c.data for c in cmds if isinstance(c, commands.SendData))
-    other = [type(c).__name__ for c in cmds if not isinstance(c, (commands.SendData, commands.CloseConnection))]
-    return {"sent_hex": hx(sent), "n_send": sum(isinstance(c, commands.SendData) for c in cmds),
-            "closed": any(isinstance(c, commands.CloseConnection) for c in cmds),
-            "send_after_close": any(isinstance(c, commands.SendData) for c in cmds[[isinstance(c, commands.CloseConnection) for c in cmds].index(True):]) if any(isinstance(c, commands.CloseConnection) for c in cmds) else False,
-            "other": other, "status": _events.ErrorCode(case["code"]).http_status_code()}
+    cmds = run(lay.send(_events.ResponseProtocolError(1, msg_of(case), _events.ErrorCode(case["code"]))))
+    closes = [i for i, c in enumerate(cmds) if isinstance(c, commands.CloseConnection)]
+    return {"before_hex": hx(before), "sent_hex": hx(b"".join(sent)), "closed": bool(closes),
+            "send_after_close": bool(closes) and any(isinstance(c, commands.SendData) for c in cmds[closes[0]:])}
+
+
+UPG_REQ = ["ws", "postup", "postup-full", "expect", "connect", "get"]
+UPG_SRV = ["refuse", "silent", "100", "101", "101+data", "200part", "200part-stream", "404part-stream"]
+AFTER_101 = b"\x81\x05hello"
+
+
+def read_client_wire(data: bytes):
+    """framing reader for what ONE request's client sees: interim heads, then either a 101 (everything after it belongs to
+    the upgraded protocol) or one final response.  returns (events, failures)"""
+    ev, fails = [], []
+    while data:
+        i = data.find(b"\r\n\r\n")
+        m = re.match(rb"HTTP/1\.1 (\d{3}) [^\r\n]*\r\n", data)
+        if i < 0 or not m:
+            fails.append("client wire: bytes that are not a response head where one is due: %r" % data[:60]); break
+        st = int(m.group(1)); head, data = data[:i + 4], data[i + 4:]
+        if st == 101:
+            ev.append(("101", st))
+            if b"<html" in data or b"HTTP/1." in data:
+                fails.append("an HTTP response / HTML page is written into the connection after '101 Switching Protocols': %r" % data[:80])
+            return ev, fails
+        if 100 <= st <= 199:
+            ev.append(("interim", st)); continue
+        hdrs = dict((k.lower(), v.strip()) for k, v in (l.split(b":", 1) for l in head.split(b"\r\n")[1:] if b":" in l))
+        if st == 200 and len(hdrs) == 0:
+            ev.append(("established", st))
+            if b"<html" in data or b"HTTP/1." in data:
+                fails.append("an HTTP response / HTML page is written into an established CONNECT tunnel: %r" % data[:80])
+            return ev, fails
+        n = int(hdrs.get(b"content-length", b"0"))
+        body, rest = data[:n], data[n:]
+        own = hdrs.get(b"server", b"").startswith(b"mitmproxy") and b"x-up" not in hdrs
+        ev.append(("page" if own else "relayed", st, len(body) == n))
+        if own:
+            if len(body) != n: fails.append("error page body shorter than its content-length")
+            if hdrs.get(b"content-type") != b"text/html": fails.append("error page without Content-Type text/html")
+            fails.extend(scan_page(st, body))
+        elif b"<html" in body or b"HTTP/1." in body:
+            fails.append("an HTTP response / HTML page is written into the body of the relayed %d response: %r" % (st, body[:80]))
+        if rest:
+            fails.append("%d bytes after the final response (a second response to one request): %r" % (len(rest), rest[:60]))
+        return ev, fails
+    return ev, fails
+
+
+def upg_relayed(case):
+    """which response head has reached the client when the upstream dies — from the scenario alone (0: none)"""
+    srv = case["srv"]
+    if srv in ("101", "101+data"): return 101
+    if srv == "200part-stream": return 200
+    if srv == "404part-stream": return 404
+    return 100 if case["req"] == "expect" else 0       # mitmproxy's own 100 Continue
+
+
+def run_upg(case):
+    """upgrade-style requests (websocket GET, POST + Upgrade with a streamed body, Expect: 100-continue, CONNECT) through the
+    real HttpLayer; the upstream dies at a chosen point: refused, silent close, after an interim head, after a 101 head
+    (request still uploading or complete), inside a streamed or buffered final response."""
+    from common.world import World, make_context
+    from mitmproxy.proxy.layers import http
+    from mitmproxy.proxy.layers.http import HTTPMode
+    from mitmproxy.test import taddons
+    from mitmproxy.addons import proxyserver
+    req_kind, srv = case["req"], case["srv"]
+    mk = unhx(case["mk_hex"]).decode("utf-8", "replace")
+    stream_req = case.get("stream_req", True)
+    host = b"Host: a.example\r\n"
+    req = {
+        "ws": b"GET http://a.example/ws HTTP/1.1\r\n" + host + b"Connection: Upgrade\r\nUpgrade: websocket\r\nSec-WebSocket-Key: dGhlIHNhbXBsZSBub25jZQ==\r\nSec-WebSocket-Version: 13\r\n\r\n",
+        "postup": b"POST http://a.example/up HTTP/1.1\r\n" + host + b"Connection: Upgrade\r\nUpgrade: foo\r\nContent-Length: 10\r\n\r\nabc",
+        "postup-full": b"POST http://a.example/up HTTP/1.1\r\n" + host + b"Connection: Upgrade\r\nUpgrade: foo\r\nContent-Length: 3\r\n\r\nabc",
+        "expect": b"POST http://a.example/up HTTP/1.1\r\n" + host + b"Expect: 100-continue\r\nContent-Length: 10\r\n\r\n" + (b"abc" if stream_req else b"0123456789"),
+        "connect": b"CONNECT a.example:80 HTTP/1.1\r\nHost: a.example:80\r\n\r\n",
+        "get": b"GET http://a.example/x HTTP/1.1\r\n" + host + b"\r\n",
+    }[req_kind]
+    up101 = b"HTTP/1.1 101 Switching Protocols\r\nConnection: Upgrade\r\nUpgrade: " + (b"websocket" if req_kind == "ws" else b"foo") + b"\r\nX-Up: 1\r\n\r\n"
+    server_data = {
+        "100": b"HTTP/1.1 100 Continue\r\n\r\n", "101": up101, "101+data": up101 + AFTER_101,
+        "200part": b"HTTP/1.1 200 OK\r\nX-Up: 1\r\nContent-Length: 10\r\n\r\n0123",
+        "200part-stream": b"HTTP/1.1 200 OK\r\nX-Up: 1\r\nContent-Length: 10\r\n\r\n0123",
+        "404part-stream": b"HTTP/1.1 404 Not Found\r\nX-Up: 1\r\nContent-Length: 10\r\n\r\n0123",
+    }.get(srv)
+
+    def on_hook(w, h):
+        name = getattr(h, "name", "")
+        if name == "requestheaders" and stream_req: h.args()[0].request.stream = True
+        if name == "responseheaders" and srv.endswith("-stream"): h.args()[0].response.stream = True
+    with taddons.context(proxyserver.Proxyserver()) as tctx, Recorder() as rec:
+        ctx = make_context(opts=tctx.options)
+        lay = http.HttpLayer(ctx, HTTPMode.regular)
+        w = World(lay, ctx, on_hook=on_hook, on_connect=(lambda w, c: "refused: " + mk) if srv == "refuse" else None)
+        w.start()
+        w.recv("client", req)
+        if server_data is not None:
+            for lab in w.server_labels(): w.recv(lab, server_data)
+        for lab in w.server_labels():
+            if case.get("death", "close") == "close": w.peer_close(lab)
+        return {"wire_hex": hx(w.sent_to("client")), "crash": [e[0] for e in w.errors],
+                "calls": [[k, st, hx(m.encode("utf8", "replace")), hx(out)] for k, st, m, out in rec.calls]}
 
 
 class Check(PropertyCheck):
@@ -275,7 +399,11 @@ class Check(PropertyCheck):
                   "modelled (h1ErrorReply: writable?, response started?, ErrorCode->status) and whatever it writes is proved to be exactly one such "
                   "response for a status 100..999 followed by close, never into a started response (h1_error_reply_wellformed). Model tied to the code byte-for-byte on "
                   "generated (status, message) pairs, on the real Http1Server.send for every ErrorCode x started x writable, and on every format_error/make_error_response call made while real "
-                  "HttpLayers (HTTP/1 and HTTP/2) are driven into their error paths; every page on the wire is scanned.")
+                  "HttpLayers (HTTP/1 and HTTP/2) are driven into their error paths; every page on the wire is scanned. The send site takes WHICH "
+                  "head was relayed before the error as input (none / own 100 / 102 / 103 / 101 / final / final+body): proved that a page is written "
+                  "only before any head, never after a 101 or a final head (error_page_only_before_any_head, wire_unchanged_after_101_or_final); "
+                  "tied on the real Http1Server for every ErrorCode x head kind, and end to end on upgrade requests (websocket, POST+Upgrade with a "
+                  "streamed body, Expect: 100-continue, CONNECT) with the upstream dying at each point, the client's wire read by a framing reader.")
     level_note = ("trusted: Lean kernel; the differential tie (exhaustive short strings over the special characters + random "
                   "+ end-to-end recorded calls); CPython html.escape / textwrap.dedent / str.strip / str.encode are the modelled "
                   "primitives (UTF-8 encoding commutes with them since they touch ASCII only: messages travel to the model as "
@@ -352,11 +480,18 @@ class Check(PropertyCheck):
             for sc in scs:
                 for mode in ("regular", "transparent"):
                     yield {"op": "e2e", "proto": proto, "sc": sc, "mode": mode, "mk_hex": hx(MARK.encode()), "cut": 0}
-        # the HTTP/1 send site: every ErrorCode x response started x client writable
+        # the HTTP/1 send site: every ErrorCode x WHICH head was relayed before the error x client writable
         for code in _events.ErrorCode:
-            for started in (False, True):
+            for head in HEAD_KINDS:
                 for cw in (True, False):
-                    yield {"op": "err", "code": code.value, "started": started, "canwrite": cw, "msg_hex": hx(MARK.encode())}
+                    if not cw and head not in ("none", "101", "200"): continue
+                    yield {"op": "err", "code": code.value, "head": head, "canwrite": cw, "msg_hex": hx(MARK.encode())}
+        # upgrade-style requests x the point where the upstream dies (which head has been relayed by then)
+        for req in UPG_REQ:
+            for srv in UPG_SRV:
+                for sr in (True, False):
+                    if not sr and req != "expect": continue      # buffered variant: the whole body is there
+                    yield {"op": "upg", "req": req, "srv": srv, "stream_req": sr, "mk_hex": hx(MARK.encode())}
         # length ladder x markup density: raw and escaped length on either side of every plausible cap (256, 1024, 2K, 8K, 64K)
         for c in self.length_ladder(rng, tier):
             yield c
@@ -387,8 +522,13 @@ class Check(PropertyCheck):
                        "mk_hex": hx(mk.encode()), "cut": rng.randint(0, 40) if rng.chance(0.4) else 0,
                        "novalidate": rng.chance(0.15)}
                 continue
+            if rng.chance(0.01):
+                rq = rng.pick(UPG_REQ)
+                yield {"op": "upg", "req": rq, "srv": rng.pick(UPG_SRV), "stream_req": rq != "expect" or rng.chance(0.6),
+                       "mk_hex": hx(self.dense(rng, rng.pick([3, 20, 300]), rng.pick([0.1, 1.0])).encode())}
+                continue
             if rng.chance(0.03):
-                yield {"op": "err", "code": rng.pick(list(_events.ErrorCode)).value, "started": rng.chance(0.3), "canwrite": rng.chance(0.85),
+                yield {"op": "err", "code": rng.pick(list(_events.ErrorCode)).value, "head": rng.pick(HEAD_KINDS), "canwrite": rng.chance(0.85),
                        "msg_hex": hx(self.dense(rng, rng.pick([0, 3, 20, 300, 1025]), rng.pick([0.1, 1.0])).encode())}
                 continue
             r = rng.random()
@@ -449,6 +589,10 @@ class Check(PropertyCheck):
             return {"page_hex": hx(page), "resp_hex": hx(resp), "model_msg_hex": hx(msg.encode("utf8", "replace"))}
         if case["op"] == "err":
             return run_err(case)
+        if case["op"] == "upg":
+            obs = run_upg(case)
+            self._stash = (self._key(case), obs)
+            return obs
         obs = run_e2e(case)
         self._stash = (self._key(case), obs)
         return obs
@@ -474,6 +618,11 @@ class Check(PropertyCheck):
         if case["op"] == "err":
             sent = unhx(obs["sent_hex"])
             if not sent: return []
+            st0 = relayed_status(case["head"])          # input: which head the harness had relayed before the error
+            if st0 == 101 or st0 >= 200:
+                # 'a complete, correctly framed response': after a 101 the connection speaks another protocol, after a final
+                # head the client is reading that response — anything written there is not a correctly framed response
+                return [f"error path wrote {len(sent)} bytes after a relayed {case['head']} head: {sent[:60]!r}"]
             # whatever is written must be one complete framed HTML error response, properly escaped, and nothing after it
             rs, left = parse_h1_stream(sent)
             if len(rs) != 1 or left or obs["send_after_close"]:
@@ -481,6 +630,12 @@ class Check(PropertyCheck):
             if dict(rs[0]["headers"]).get(b"content-type") != b"text/html":
                 fails.append("HTTP/1 error response does not declare Content-Type: text/html")
             return fails + scan_page(rs[0]["status"], rs[0]["body"])
+        if case["op"] == "upg":
+            if obs["crash"]: fails.append("layer raised %s while the upstream died" % obs["crash"][0])
+            return fails + read_client_wire(unhx(obs["wire_hex"]))[1]
+        if len(obs["pages"]) > 1:
+            # one request was sent: a second response after a final head is not a correctly framed answer
+            fails.append("more than one response written for one request (%d)" % len(obs["pages"]))
         if obs["crash"]:
             fails.append("layer raised %s while producing the error response" % obs["crash"][0])
         if obs["leftover_hex"] != "-":
@@ -501,7 +656,13 @@ class Check(PropertyCheck):
             m = hx(msg_of(case).encode("utf8", "replace"))
             return [f"fmt {case['status']} {m}", f"resp {case['status']} {m}"]
         if case["op"] == "err":
-            return [f"err {int(case['canwrite'])} {int(case['started'])} {case['code']} " + hx(msg_of(case).encode("utf8", "replace"))]
+            return [f"errh {int(case['canwrite'])} {relayed_status(case['head'])} {case['code']} " + hx(msg_of(case).encode("utf8", "replace"))]
+        if case["op"] == "upg":
+            obs = self._stash[1] if getattr(self, "_stash", (None,))[0] == self._key(case) else self.impl(case)
+            out = [("resp" if kind == "resp" else "fmt") + f" {st} {m}" for kind, st, m, _ in obs["calls"]]
+            if case["req"] != "connect":      # page or not, predicted from the scenario alone (CONNECT failures are not format_error pages)
+                out.append(f"errh 1 {upg_relayed(case)} {5 if case['srv'] == 'refuse' else 2} 78")
+            return out
         # e2e: the lines replay the format_error / make_error_response calls recorded while the layer ran
         # (impl() of the same case has just run in this process; otherwise run it)
         obs = self._stash[1] if getattr(self, "_stash", (None,))[0] == self._key(case) else self.impl(case)
@@ -522,9 +683,19 @@ class Check(PropertyCheck):
         return list(obs["pages"])
 
     def model_obs(self, case, replies):
+        if case["op"] == "upg":
+            r = list(replies)
+            if case["req"] != "connect": r[-1] = "nopage" if r[-1].startswith("nopage") else "page"
+            return r
         return list(replies) + (["unmatched=0"] if case["op"] == "e2e" else [])
 
     def impl_view(self, case, obs):
+        if case["op"] == "upg":
+            v = [c[3] for c in obs["calls"]]
+            if case["req"] != "connect":
+                ev = read_client_wire(unhx(obs["wire_hex"]))[0]
+                v.append("page" if any(e[0] == "page" for e in ev) else "nopage")
+            return v
         if case["op"] == "err":
             return [("nopage" if obs["sent_hex"] == "-" else obs["sent_hex"]) + (" close" if obs["closed"] else " open")]
         if case["op"] == "fmt":
@@ -540,16 +711,21 @@ class Check(PropertyCheck):
         return v + [f"unmatched={unmatched}"]
 
     def classify(self, case, obs):
+        if case["op"] == "upg":
+            return ("upg", case["req"], case["srv"], case.get("stream_req"), case["mk_hex"])
         if case["op"] == "err":
-            return ("err", case["code"], case["started"], case["canwrite"], case["msg_hex"])
+            return ("err", case["code"], case["head"], case["canwrite"], case["msg_hex"])
         if case["op"] == "fmt":
             return None if case["msg_hex"] == "-" else ("fmt", case["status"], case["msg_hex"])
         if not obs["pages"]: return None
         return ("e2e", case["proto"], case["sc"], case.get("mode"), case["mk_hex"], case.get("cut", 0), bool(case.get("novalidate")))
 
     def branches(self, case, obs):
+        if case["op"] == "upg":
+            ev = read_client_wire(unhx(obs["wire_hex"]))[0]
+            return [f"upg:{case['req']}:{case['srv']}:" + "+".join(e[0] for e in ev)]
         if case["op"] == "err":
-            return ["err:" + ("page" if obs["sent_hex"] != "-" else "no-page") + (":close" if obs["closed"] else ":untouched")]
+            return ["err:after-" + case["head"] + (":page" if obs["sent_hex"] != "-" else ":no-page") + (":close" if obs["closed"] else ":untouched")]
         if case["op"] == "fmt":
             m = unhx(case["msg_hex"])
             out = ["fmt"]
